@@ -365,6 +365,14 @@ func (P *Prog) buildVC(fn *ssa.Function, opts *VerifyOpts, houdini bool) (res *F
 	// cover: exit reachable
 	cov := &Obligation{Name: funcKey(fn) + "#cover[exit]", Kind: "cover", Fn: funcKey(fn), Mark: ex.vc.mark(), Goal: Not(exit.reach), vc: ex.vc}
 	ex.covers = append(ex.covers, cov)
+	// cover: every return of the constant nil error ("success") must be reachable too; a
+	// contradictory assumption that only kills the success paths would otherwise make every
+	// "err == nil ==> ..." clause hold vacuously
+	for i, rr := range fr.rets {
+		if n := len(rr.vals); n > 0 && types.Identical(fn.Signature.Results().At(n-1).Type(), errType) && rr.constNilErr && rr.st != nil {
+			ex.covers = append(ex.covers, &Obligation{Name: fmt.Sprintf("%s#cover[return%d@%s]", funcKey(fn), i+1, P.pos(rr.pos)), Kind: "cover", Fn: funcKey(fn), Mark: ex.vc.mark(), Goal: Not(rr.st.reach), vc: ex.vc})
+		}
+	}
 	if !perReturn {
 		checkExit(fr, exit, results, "")
 	}
@@ -479,8 +487,11 @@ func (P *Prog) frameObligations(ex *Exec, fr *Frame, c *Contract, env *SpecEnv, 
 	keys := P.modset(fr.fn)
 	whole := map[string]bool{}
 	targets := map[string][][]Term{}
+	ranges := map[string][][3]Term{}
+	wholeRows := map[string]bool{}
 	var starRefs []Term
 	var starTypes []types.Type
+	var starLocs []*Loc
 	for _, m := range c.Modifies {
 		if m.Whole {
 			whole[m.Key] = true
@@ -490,11 +501,17 @@ func (P *Prog) frameObligations(ex *Exec, fr *Frame, c *Contract, env *SpecEnv, 
 			sv := env.eval(m.E)
 			starRefs = append(starRefs, refOf(sv))
 			starTypes = append(starTypes, sv.T)
+			starLocs = append(starLocs, sv.P)
 			continue
 		}
 		for _, tl := range env.evalLocs(m.E) {
 			for _, h := range tl.heaps {
 				targets[h.Name] = append(targets[h.Name], tl.idx)
+				if tl.rng != nil {
+					ranges[h.Name] = append(ranges[h.Name], [3]Term{tl.idx[0], tl.rng[0], tl.rng[1]})
+				} else if len(tl.idx) == 1 {
+					wholeRows[h.Name+"|"+tl.idx[0].S] = true
+				}
 			}
 		}
 	}
@@ -548,7 +565,7 @@ func (P *Prog) frameObligations(ex *Exec, fr *Frame, c *Contract, env *SpecEnv, 
 				}
 				if strings.HasPrefix(n, "H$") {
 					for si, sr := range starRefs {
-						if P.starAffects(h, starTypes[si]) {
+						if P.starAffectsLoc(h, starTypes[si], starLocs[si]) {
 							conds = append(conds, Ne(r, sr))
 						}
 					}
@@ -557,6 +574,29 @@ func (P *Prog) frameObligations(ex *Exec, fr *Frame, c *Contract, env *SpecEnv, 
 			}
 		}
 		fr.oblige(exit, "frame", h.Name, goal, 0)
+		// elems(s) targets: within the row only the elements of s may have changed
+		if h.Dim == 2 {
+			byRow := map[string][][3]Term{}
+			var order []string
+			for _, rg := range ranges[n] {
+				if wholeRows[n+"|"+rg[0].S] {
+					continue
+				}
+				if _, ok := byRow[rg[0].S]; !ok {
+					order = append(order, rg[0].S)
+				}
+				byRow[rg[0].S] = append(byRow[rg[0].S], rg)
+			}
+			for _, rk := range order {
+				j := Term{"fj", SInt}
+				var outside []Term
+				for _, rg := range byRow[rk] {
+					outside = append(outside, Or(Lt(j, rg[1]), Ge(j, Add(rg[1], rg[2]))))
+				}
+				row := byRow[rk][0][0]
+				fr.oblige(exit, "frame", h.Name+"/outside-elems", Forall([]string{"fj"}, Implies(And(append([]Term{Le(row, st0.alloc)}, outside...)...), Eq(Select(Select(nw, row), j), Select(Select(old, row), j)))), 0)
+			}
+		}
 	}
 }
 
@@ -589,13 +629,15 @@ func (P *Prog) verifyFunc(fn *ssa.Function, opts *VerifyOpts) *FuncResult {
 	if res.Unsupported == "" && !opts.NoSolve {
 		P.solveAll(res.Obls, opts)
 		// cover
+		res.CoverOK = true
 		for _, c := range res.ex.covers {
-			script := c.vc.query(c.Mark, nil, c.Goal, false)
-			r := solve(script, opts.OutDir, c.Name, 3, opts.Solvers)
-			res.CoverRes = r.Status
-			res.CoverOK = r.Status == "sat" || r.Status == "unknown" || r.Status == "timeout"
+			r := solveCover(c, opts.OutDir)
+			if res.CoverRes == "" || r.Status == "unsat" {
+				res.CoverRes = r.Status
+			}
 			if r.Status == "unsat" {
 				res.CoverOK = false
+				res.CoverRes = "UNREACHABLE " + c.Name
 			}
 		}
 	}
@@ -1072,6 +1114,32 @@ func (P *Prog) saveHints(path string) {
 //  3. full VC as is, whole portfolio.
 // Every stage only drops or instantiates hypotheses, so "unsat" at any stage
 // is a proof of the obligation; "sat" is only believed from stage 3.
+// solveCover decides a reachability cover: "unsat" means the point is unreachable
+// under the assumptions of the VC (vacuity). The instantiated forms only add
+// consequences of the hypotheses, so an unsat answer from any of them is sound.
+func solveCover(c *Obligation, outDir string) SolveResult {
+	q1, _ := c.vc.instantiatedQuery(c.Mark, c.Goal, false, true)
+	r := solve(q1, outDir, c.Name+".s1", 3, "z3,z3-new")
+	if r.Status == "unsat" {
+		return r
+	}
+	q3, n3 := c.vc.instantiatedQuery(c.Mark, c.Goal, false, false)
+	if n3 > 0 && len(q3) < 2500000 {
+		r3 := solve(q3, outDir, c.Name+".s3", 3, "z3,z3-new")
+		if r3.Status == "unsat" {
+			return r3
+		}
+		if r3.Status == "sat" {
+			r = r3
+		}
+	}
+	r4 := solve(c.vc.query(c.Mark, nil, c.Goal, false), outDir, c.Name, 3, "z3,cvc5")
+	if r4.Status == "unsat" || r4.Status == "sat" {
+		return r4
+	}
+	return r
+}
+
 func solveObligation(o *Obligation, outDir string, timeout int) SolveResult {
 	spent := 0.0
 	// stage 1: full VC, lean instantiation (only hypotheses over the goal's own variables);
